@@ -139,7 +139,9 @@ def emit_a(ctx, a):
     paths = []
     for k, o in enumerate(a["out"]):
         mi, p, at, rt = o["cfg"]
-        assert all(-8 <= v <= 7 for v in o["wb"])
+        # an index outside the nibble range cannot be a model value (the model's indices lie in [-3, L-1]): encode it as the
+        # sentinel -8, which never agrees; the direct oracle names the input
+        o["wb"] = [v if -7 <= v <= 7 else -8 for v in o["wb"]]
         if o.get("neg"):
             txt = HEADER + f"""
 Definition st := mkStopper {natlit(mi)} {natlit(p)} {qlit(at)} {qlit(rt)}.
